@@ -68,8 +68,6 @@ Definition c18_check (c : c18_case) : bool :=
   end.
 
 (* finding signatures (known_findings.d/C18.json) *)
-Definition F_set_race : N := 1.
-Definition F_shared_flight : N := 3.
 
 (* every SetCurrentRevision on the local backend must carry the revision of a successful fetch: none on the
    leader, none when the fetch failed (an unparsable 200 answer is a failed fetch) *)
@@ -124,10 +122,7 @@ Definition c18_oracle (c : c18_case) : option N :=
   match c with
   | RoleCase k r proxy l obs => role_row_ok k r l obs
   | SchedCase _ _ _ a b sets =>
-      if tobs_fresh a && tobs_fresh b then None
-      else if existsb (fun x => snd x <? fst x) sets then Some F_set_race
-      else if (negb (tobs_fresh a) && tobs_joined a) || (negb (tobs_fresh b) && tobs_joined b) then Some F_shared_flight
-      else Some 0
+      ok_if (tobs_fresh a && tobs_fresh b)
   | TakeoverCase old version mid_status mid_list first_rev post_complete =>
       (* a node that answers /status as leader has installed the lock version; a follower's read through it fails
          or reflects what the old leader had committed *)
